@@ -11,6 +11,7 @@ pub struct MapShape {
     pub source_root: Option<String>,
     pub sparse: bool,
     pub sourceless_segments: bool,
+    pub sources_content: bool,
 }
 
 pub fn gen_shape(rng: &mut Rng) -> MapShape {
@@ -26,6 +27,7 @@ pub fn gen_shape(rng: &mut Rng) -> MapShape {
         },
         sparse: rng.chance(1, 2),
         sourceless_segments: false,
+        sources_content: rng.chance(1, 3),
     }
 }
 
@@ -41,6 +43,12 @@ pub fn gen_orig_map(rng: &mut Rng, program: &str, shape: &MapShape) -> Map {
             2 => "../shared/lib.ts".to_string(),
             _ => format!("gen{}.ts", i),
         });
+    }
+    if shape.sources_content {
+        for i in 0..shape.sources {
+            // some entries null, as bundlers emit for external sources
+            m.sources_content.push(if rng.chance(1, 4) { None } else { Some(format!("// original source {}\nexport const x{} = {};\n", i, i, i)) });
+        }
     }
     if shape.names {
         for n in ["alpha", "beta", "gamma", "delta"] {
